@@ -332,6 +332,16 @@ func (w *World) Take(i int) *Flight {
 	return fl
 }
 
+// Duplicate puts a second copy of a frame in flight and returns it.
+func (w *World) Duplicate(fl *Flight) *Flight {
+	w.mu.Lock()
+	defer w.mu.Unlock()
+	w.seq++
+	cp := &Flight{ID: w.seq, From: fl.From, To: fl.To, Data: append([]byte(nil), fl.Data...), Prio: fl.Prio}
+	w.Inflight = append(w.Inflight, cp)
+	return cp
+}
+
 // NInflight returns the number of frames in flight.
 func (w *World) NInflight() int {
 	w.mu.Lock()
